@@ -53,8 +53,35 @@ def in_child(fn):
     return json.loads(b"".join(chunks).decode() or "null")
 
 
-progs = [program(a, cfg[0], cfg[1], cfg[2]), program(b, cfg[3], cfg[4], cfg[5])]
 mode = sys.argv[4]
+if mode == "firstuse":
+    # cfg: list of [name, args, phase, set, reference cdb, decoded fields]; each class in its own pristine
+    # child: what the class encodes / decodes BEFORE any instance of it exists and AFTER one was created
+    out = []
+    for name, args, ph, setname, refcdb, dec in cfg:
+        def probe(name=name, args=args, ph=ph, setname=setname, refcdb=refcdb, dec=dec):
+            K = cmds.klass(name)
+
+            def look():
+                r = []
+                for d in (dict(dec), {k: v for k, v in dec.items() if k != "opcode"}):
+                    try:
+                        r.append(list(K.marshall_cdb(d)))
+                    except Exception as ex:
+                        r.append("raised " + type(ex).__name__)
+                try:
+                    r.append(sorted((k, int(v)) for k, v in K.unmarshall_cdb(bytearray(refcdb)).items() if isinstance(v, int)))
+                except Exception as ex:
+                    r.append("raised " + type(ex).__name__)
+                return r
+            before = look()
+            cmd, exc, _ = cmds.construct(name, setname, args, ph) if ph != "out_list" else (cmds.benign(name), "", None)
+            after = look()
+            return [before, after, exc]
+        out.append(in_child(probe))
+    print(json.dumps(out))
+    sys.exit(0)
+progs = [program(a, cfg[0], cfg[1], cfg[2]), program(b, cfg[3], cfg[4], cfg[5])]
 if mode == "measure":
     def m():
         r = Runner(progs)
